@@ -430,7 +430,7 @@ def gen_world(seed, profile="greedy", opts=None):
     world = {"seed": seed, "profile": profile, "cluster": cluster, "profiles": profiles,
              "graphs": graphs, "flags": flags, "sim": sim, "policy": policy,
              "faults": gen_faults(r, profile, opts), "loader": {"kind": "static"}}
-    if r.random() < opts.get("p_batch_loader", 0.2) and profile in ("greedy", "chaos"):
+    if r.random() < opts.get("p_batch_loader", 0.2) and profile in ("greedy", "chaos", "plan"):
         world["loader"] = {"kind": "batch", "interval": r.choice([1, 3, 7]),
                            "batches": r.choice([2, 3])}
         world["flags"]["workload_update_interval"] = world["loader"]["interval"]
